@@ -4,7 +4,7 @@ import ast
 
 from ..src import AnalysisError, unparse, norm_stmt, walk_no_nested
 from ..label import World, bond, Node, T, Dim, flip, split_args, check_network, TreeSym
-from ..syminterp import Sym, SymDict, SymInterp, Blob
+from ..syminterp import Sym, SymDict, SymInterp, Blob, OpenSym
 from .. import qn as Q
 
 TREE = "renormalizer/tn/tree.py"
@@ -1651,7 +1651,10 @@ def ttno_layout(chk, src):
         pass
     conv, conn = [], []
 
+    passed_terms = []
+
     def construct(basis, terms, algo=None):
+        passed_terms.append(list(terms))
         order = trav[used["construct"][0]] if used["construct"] else []
         return [("mo", n._name) for n in order], [("qn", n._name) for n in order]
     iti = SymInterp(src, None, {"construct_symbolic_ttno": construct, "Op": None, "backend": Blob("backend"),
@@ -1660,7 +1663,19 @@ def ttno_layout(chk, src):
                                 "copy_connection": lambda a_, b_: conn.append((list(a_), list(b_))) or "root",
                                 "super": lambda: Sym("super", __init__=lambda *a_: None)})
     me = Sym("ttno")
-    iti.call_function(init, [me, mk_basis("init"), ["term"]])
+    given = [Sym("term0", factor=Sym("factor0")), Sym("term1", factor=Sym("factor1"))]
+    # the operator terms must reach the builder as given: value-dependent filters (tolerances) are run with both outcomes
+    for verdict in (True, False):
+        iti.builtins["np"] = OpenSym("np", isclose=lambda *a, **k: verdict, allclose=lambda *a, **k: verdict, abs=lambda x: Sym("abs"))
+        iti.call_function(init, [Sym("ttno"), mk_basis("init"), list(given)])
+    terms_ok = all(len(t) == len(given) and all(a is b for a, b in zip(t, given)) for t in passed_terms) and len(passed_terms) == 2
+    chk.ob("layout", "TTNO.__init__ hands every given term to the builder", terms_ok, init.where, [[repr(x) for x in t] for t in passed_terms], "the given terms, unfiltered (exact zeros may be dropped)", line=init.node.lineno,
+           detail="a term dropped because its coefficient is below some tolerance makes the operator differ from the sum of its terms (small couplings are still couplings)")
+    conv.clear()
+    conn.clear()
+    used["init"].clear()
+    iti.builtins["np"] = OpenSym("np")
+    iti.call_function(init, [me, mk_basis("init"), list(given)])
     pair_ok = bool(conv) and all(bs == [f"{mo[1]}.b{k_}" for k_ in range(len(bs))] for bs, mo in conv) and len(conv) == len(w4.snodes)
     conn_ok = len(conn) == 1 and [x._name for x in conn[0][0]] == [y.made_from[0][1] for y in conn[0][1]] and [y.made_from[1][1] for y in conn[0][1]] == [x._name for x in conn[0][0]]
     chk.ob("layout", "construction order = conversion order = connection order", pair_ok and conn_ok and len(used["construct"]) == 1, init.where,
